@@ -415,7 +415,7 @@ def _part_c(ctx, case, rec, d):
     from sedfitter.fit_info import FitInfoFile
     from props import C19
     meta = C19._meta(d)
-    kinds = ['f0', 'f1m', 'f3mx', 'f3x', 'f1L', 'f3mW', 'f3mE', 'f3Ex']
+    kinds = ['f0', 'f1m', 'f3mx', 'f3x', 'f1L', 'f3mW', 'f3mE', 'f3Ex', 'f3mA', 'f3mO', 'f3U']
     n = 0
     for L in (1, 2, 3):
         for seq in itertools.product(kinds, repeat=L):
